@@ -14,7 +14,7 @@ from .symex import (Exec, Frame, ReturnSignal, RaiseSignal, PathEnd, Infeasible,
 
 class Contract:
     def __init__(self, qualname, setup=None, requires=(), ensures=(), raises=None, modifies=(),
-                 result=None, inline=False, loops=None, notes="", ghost=None, pure=False):
+                 result=None, inline=False, loops=None, notes="", ghost=None, pure=False, dispatch=None):
         self.qualname = qualname
         self.setup = setup              # callable(S) -> dict of symbolic arguments (for proving the function)
         self.requires = list(requires)
@@ -27,6 +27,7 @@ class Contract:
         self.notes = notes
         self.ghost = ghost              # callable(S, env): adds ghost names to the clause environment
         self.pure = pure
+        self.dispatch = dispatch        # callable(bound args) -> variant suffix selecting the contract at call sites
 
     def named(self, clauses, prefix):
         out = []
